@@ -61,12 +61,22 @@ if TYPE_CHECKING:
 class _SocketConnector:
     factory: Callable[[], Awaitable[tuple[AsyncStreamTransport, SocketProxy]]]
     scope: CancelScope
+    unused_socket: _socket.socket | None = None
 
     async def get(self) -> tuple[AsyncStreamTransport, SocketProxy] | None:
+        # From now on, the socket given by the user (if any) belongs to the factory.
+        self.unused_socket = None
         result: tuple[AsyncStreamTransport, SocketProxy] | None = None
         with self.scope:
             result = await self.factory()
         return result
+
+    def abort(self) -> None:
+        self.scope.cancel()
+        # The client owns the socket given by the user: close it if it has never been used.
+        unused_socket, self.unused_socket = self.unused_socket, None
+        if unused_socket is not None:
+            unused_socket.close()
 
 
 class AsyncTCPNetworkClient(AbstractAsyncNetworkClient[_T_SentPacket, _T_ReceivedPacket]):
@@ -260,6 +270,7 @@ class AsyncTCPNetworkClient(AbstractAsyncNetworkClient[_T_SentPacket, _T_Receive
         self.__socket_connector: _SocketConnector | None = _SocketConnector(
             factory=_utils.make_callback(self.__create_socket, socket_factory),
             scope=backend.open_cancel_scope(),
+            unused_socket=__arg if isinstance(__arg, _socket.socket) else None,
         )
         self.__socket_connector_lock: ILock = backend.create_lock()
 
@@ -430,7 +441,7 @@ class AsyncTCPNetworkClient(AbstractAsyncNetworkClient[_T_SentPacket, _T_Receive
         Can be safely called multiple times.
         """
         if self.__socket_connector is not None:
-            self.__socket_connector.scope.cancel()
+            self.__socket_connector.abort()
             self.__socket_connector = None
         try:
             async with self.__send_lock:
